@@ -545,6 +545,14 @@ Definition new_token_required_bib (id : N) (desc : str) (p : scanner) (start : o
   mkErr id (desc ++ k_expected) (fname_of (sc_filename p)) (SSyntax k_syntax_error (Some (sc_lineno p)))
         (CBib (sc_text p) start (sc_pos p)).
 
+(* errors of a scanner WITHOUT line numbers (class attribute lineno = None: NameFormatParser,
+   bibtex/names.py:286-296, whose eat_whitespace is a no-op): lineno None in __str__ (no ' in line n'),
+   error_context_info = (None, pos), so get_error_context yields no context line *)
+Definition new_syntax_error_nl (id : N) (etype msg : str) (fn : pfname) : err :=
+  mkErr id msg (fname_of fn) (SSyntax etype None) CNone.
+Definition new_token_required_nl (id : N) (desc : str) (text : str) (fn : pfname) (pos : Z) : err :=
+  mkErr id (desc ++ k_expected) (fname_of fn) (SSyntax k_syntax_error None) (CScan text None pos).
+
 (* AuxDataError(message, context), auxfile.py:36-39: filename = context.filename, a copy of the context *)
 Definition new_aux_error (id : N) (msg : str) (c : auxctx) : err :=
   mkErr id msg (fname_of (ax_filename c)) (SAux (ax_lineno c)) (CAux (ax_line c)).
@@ -569,7 +577,9 @@ Inductive constructed : err -> Prop :=
     (1 <= sc_lineno p <= Z.of_nat (length (splitlines true (sc_text p))))%Z ->
     constructed (new_token_required id desc p)
 | C_token_bib id desc p start : bib_state_ok p start -> constructed (new_token_required_bib id desc p start)
-| C_aux id msg c : constructed (new_aux_error id msg c).
+| C_aux id msg c : constructed (new_aux_error id msg c)
+| C_syntax_nl id etype msg fn : constructed (new_syntax_error_nl id etype msg fn)
+| C_token_nl id desc text fn pos : constructed (new_token_required_nl id desc text fn pos).
 
 (* ------------------------------------------------------------------------------- *)
 (* the shape rendering relies on: a message is CONCATENATED into str(error), never used as a
@@ -604,3 +614,12 @@ Definition modes_agree (g : G) (c : comp) (ss : list str) : Prop :=
 
 (* the computation that reports the given problems one after the other and then ends *)
 Definition comp_of (ps : list err) (last : comp) : comp := fold_right Report last ps.
+
+(* Scanner.required([Literal(lit)]) on a fresh line-less scanner (NameFormatParser(text)): no white
+   space is skipped, the position is 0, there is no line number *)
+Definition lineless_required (text lit : str) (fn : pfname) (id : N) : str + err :=
+  match text with
+  | [] => inr (new_syntax_error_nl id k_syntax_error k_premature_end_of_file fn)      (* PrematureEOF *)
+  | _ => if startswith text lit then inl lit
+         else inr (new_token_required_nl id ([39] ++ lit ++ [39]) text fn 0%Z)         (* TokenRequired *)
+  end.
